@@ -188,7 +188,7 @@ def proof_gate(prop, cfg, work):
     """Returns dict(ok, obligations, discharged, theorems, axioms, problems, log)."""
     d = cfg.get("coq_dir", prop)
     res = dict(ok=False, obligations=0, discharged=0, theorems=[], axioms=[], problems=[], log="")
-    targets = ["%s/Properties.vo" % d, "%s/Corr.vo" % d]
+    targets = ["%s/Properties.vo" % d, "%s/Corr.vo" % d, "Lib/Lit.vo"]  # Lit is imported by the generated case files only
     rc, out = coq_make(targets, dirs=prop_dirs(d))
     res["log"] = out[-6000:]
     if rc == -9:
